@@ -81,7 +81,7 @@ def hint(t: dict) -> Any:
         return Union[tuple(args)]
     if k == "tuple_var":
         return Tuple[args[0], ...]
-    if k in ("tuple1", "tuple2"):
+    if k in ("tuple0", "tuple1", "tuple2"):
         return Tuple[tuple(args)]
     if k in ITER:
         return ITER[k][args[0]]
@@ -149,7 +149,7 @@ def sample_values(t: dict) -> list:
         return out
     if k in ("dict", "Mapping"):
         return [{}] + [{kk: vv} for kk in sample_values(t["a"][0])[:2] for vv in sample_values(t["a"][1])[:2]]
-    if k in ("tuple1", "tuple2"):
+    if k in ("tuple0", "tuple1", "tuple2"):
         return [tuple(sample_values(a)[0] for a in t["a"])]
     elems = sample_values(t["a"][0])
     ctor = {"list": list, "set": set, "frozenset": frozenset, "deque": collections.deque, "tuple_var": tuple, "Sequence": list, "Iterable": list}[k]
@@ -192,7 +192,7 @@ def conforms(v: Any, t: dict) -> bool:
         return any(conforms(v, a) for a in t["a"])
     if k in ("dict", "Mapping"):
         return isinstance(v, dict) and all(conforms(kk, t["a"][0]) and conforms(vv, t["a"][1]) for kk, vv in v.items())
-    if k in ("tuple1", "tuple2"):
+    if k in ("tuple0", "tuple1", "tuple2"):
         return isinstance(v, tuple) and len(v) == len(t["a"]) and all(conforms(e, a) for e, a in zip(v, t["a"]))
     want = {"list": list, "set": set, "frozenset": frozenset, "deque": collections.deque, "tuple_var": tuple, "Sequence": (list, tuple),
             "Iterable": (list, tuple, set, frozenset)}[k]
